@@ -98,6 +98,28 @@ def run(chk):
         if a != b:
             chk.violate({"kind": "property", "case": lib.show_case(c), "first": a[:800], "second": b[:800],
                          "explanation": "loading the same bytes twice gives different outcomes"})
+    # ... also when other packages were loaded, closed (twice, through either way of closing) and are alive at the same
+    # time: in any history, every load of the same bytes exposes the same content
+    import debpkg, debhist
+    pk = []
+    for cenc, denc in ((".gz", ".gz"), (".gz", ".gz"), ("", ".gz"), (".xz", ".xz"), (".zst", ".zst"), (".bz2", ".bz2"), ("", ""), (".gz", ".lzma")):
+        pk.append(debpkg.build(chk, rng, cenc, denc)[0])
+    so = chk.run_impl([("debload", [b]) for b in pk])
+    hc, hw = [], []
+    for sc in debhist.FIXED:
+        for trio in ((0, 1, 2), (3, 4, 5), (0, 0, 1), (4, 4, 4), (1, 6, 7)):
+            hc.append(("debhist", [sc.encode()] + [pk[i] for i in trio])); hw.append(debhist.expected_of(sc, [so[i] for i in trio]))
+    for _ in range(chk.n(80, 1600)):
+        trio = [rng.randrange(len(pk)) for _ in range(3)]
+        sc, want = debhist.rand_script(rng, 3, [so[i] for i in trio])
+        hc.append(("debhist", [sc.encode()] + [pk[i] for i in trio])); hw.append(want)
+    hi = chk.run_impl(hc)
+    chk.record("load-histories", hc, hi, lambda c, r: r.startswith("["))
+    for c, got, want in zip(hc, hi, hw):
+        w = "[ " + " ".join(want) + " ]" if want else "[]"
+        if got != w:
+            chk.violate({"kind": "property", "case": lib.show_case(("debhist", [c[1][0]] + [b"<%d bytes>" % len(x) for x in c[1][1:]])), "impl": got[:1200], "expected": w[:1200],
+                         "explanation": "in a history of loads and closes over several packages, loading the same bytes does not expose the same content as a single fresh load"})
     try:
         from props import C14
         C14.hostile_debs(chk)
